@@ -1231,7 +1231,16 @@ def remove_duplicate_functions(source: str, preserve: Collection[str]) -> str:
             for child in ast.walk(node)
             if isinstance(child, (ast.FunctionDef, ast.AsyncFunctionDef, ast.ClassDef))
         )
-        kept_names = frozenset(preserve) | (names_with_a_meaning - own_names)
+        # A name it declares global or nonlocal is not its own, whatever it does with it
+        declared_names = {
+            name
+            for child in ast.walk(node)
+            if isinstance(child, (ast.Global, ast.Nonlocal))
+            for name in child.names
+        }
+        kept_names = (
+            frozenset(preserve) | declared_names | (names_with_a_meaning - own_names)
+        )
         function_defs[abstractions.hash_node(node, kept_names)].add(node)
 
     delete = set()
